@@ -47,9 +47,31 @@ namespace nmtools::index::impl
         } else {
             // TODO: create specific type resolver
             // TODO: only call transform array when necessary
-            using result_t = meta::tuple_to_array_t<
-                meta::transform_bounded_array_t<bshape_t>
-            >;
+            constexpr auto result_vtype = [](){
+                if constexpr (meta::is_tuple_v<bshape_t> && meta::is_clipped_index_array_v<bshape_t>) {
+                    // tuple of clipped integers with different bounds: every position of the result array
+                    // must be able to hold every extent, use the largest bound (not the common type of the elements)
+                    constexpr auto max_values = meta::to_value_v<bshape_t>;
+                    constexpr auto N = meta::len_v<bshape_t>;
+                    constexpr auto max_value = [&](){
+                        size_t m = 0;
+                        for (size_t i=0; i<(size_t)N; i++) {
+                            if ((size_t)at(max_values,i) > m) {
+                                m = (size_t)at(max_values,i);
+                            }
+                        }
+                        return m;
+                    }();
+                    using type = nmtools_array<clipped_size_t<max_value>,N>;
+                    return meta::as_value_v<type>;
+                } else {
+                    using type = meta::tuple_to_array_t<
+                        meta::transform_bounded_array_t<bshape_t>
+                    >;
+                    return meta::as_value_v<type>;
+                }
+            }();
+            using result_t = meta::type_t<decltype(result_vtype)>;
 
             auto ret = result_t {};
             [[maybe_unused]] auto dim = len(bshape);
